@@ -456,7 +456,7 @@ func arrayLenOf(t types.Type) (int64, bool) {
 	return 0, false
 }
 
-func ruleRANGE(w *World, r *Report, pkgs []string, floor int) {
+func ruleRANGE(w *World, r *Report, pkgs []string, floor int, filter ...func(fn *ssa.Function) bool) {
 	r.rule("RANGE", ruleRANGEText)
 	if w.GOARCH == "386" {
 		intBits = 32
@@ -467,6 +467,9 @@ func ruleRANGE(w *World, r *Report, pkgs []string, floor int) {
 	n := 0
 	for _, fn := range w.funcsInPkgs(pkgs...) {
 		if initFns[fn] {
+			continue
+		}
+		if len(filter) > 0 && !filter[0](fn) {
 			continue
 		}
 		rc := &rangeCtx{memo: map[ssa.Value]*ival{}, busy: map[ssa.Value]bool{}}
@@ -524,3 +527,5 @@ func describeArray(base ssa.Value) string {
 	}
 	return "array"
 }
+
+func bigZero() *big.Int { return big.NewInt(0) }
